@@ -157,6 +157,10 @@ func (c *TimingCase) Normalize() {
 			c.Cfg[s].Window = 1 << 16
 		}
 	}
+	if c.Kind == "bufwrite" && c.Cfg[1-side].Window < 4096 {
+		// The send window must stay open: the block is on the buffer pool.
+		c.Cfg[1-side].Window = 4096
+	}
 	if c.Kind == "expiry" {
 		// One write buffer behind a one-byte carrier: the buffer is busy for
 		// a while after every large write; windows large enough that the
@@ -216,6 +220,8 @@ func JudgeTiming(c *TimingCase) *TimingResult {
 		t.expiry()
 	case "redeadline":
 		t.redeadline()
+	case "bufwrite":
+		t.bufferBlockedWrite()
 	default:
 		res.Fail = "unknown scenario kind " + c.Kind
 	}
@@ -1141,4 +1147,152 @@ func (t *timingRun) redeadline() {
 		return
 	}
 	t.p.Settle()
+}
+
+// bufferBlockedWrite: the carrier stalls (its Write blocks), small Writes use
+// up every write buffer of the multiplexer, and one more Write parks waiting
+// for a WRITE BUFFER while its stream still has plenty of send window. It is
+// then released like any other blocked Write; a deadline set from another
+// goroutine must reach it there too (and SetWriteDeadline itself must return).
+// Afterwards, for the deadline releases, the carrier resumes and the stream
+// must still carry data: everything accepted arrives in order.
+func (t *timingRun) bufferBlockedWrite() {
+	c := t.c
+	x, y, ok := t.streamsFor()
+	if !ok {
+		return
+	}
+	side := c.Side & 1
+	window := int(c.Cfg[1-side].window())
+	buffers := c.Cfg[side].buffers()
+	const block = 256
+	const key = 777
+	t.p.link.WaitIdle(side, releaseBound)
+	t.p.link.Stall(side)
+	defer t.p.link.Resume(side)
+	off := 0
+	chunk := func(n int) []byte {
+		b := make([]byte, n)
+		fill(b, key, uint64(off))
+		return b
+	}
+	// One Write per write buffer: each is queued behind the stalled carrier.
+	for i := 0; i < buffers; i++ {
+		r, ok := awaitCall(asyncCall(func() (int, error) { return x.Write(chunk(block)) }), releaseBound)
+		if !ok {
+			t.failf("Write %d of %d bytes with %d write buffers, stalled carrier and an open send window (%d) did not return within %v", i+1, block, buffers, window, releaseBound)
+			return
+		}
+		if r.err != nil || r.n != block {
+			t.failf("Write %d with a free write buffer returned (%d, %v)", i+1, r.n, r.err)
+			return
+		}
+		off += r.n
+	}
+	preset := c.Release == "deadline-preset"
+	var deadline time.Time
+	if preset {
+		deadline = time.Now().Add(t.pre() + t.dl())
+		if err := x.SetWriteDeadline(deadline); err != nil {
+			t.failf("SetWriteDeadline on an open stream returned %v", err)
+			return
+		}
+	}
+	payload := chunk(block)
+	ch := asyncCall(func() (int, error) { return x.Write(payload) })
+	t.res.NonTrivial = pendingAfter(ch, t.pre())
+	issued := time.Now()
+	var extra time.Duration
+	if c.Release == "carrier-resumes" {
+		t.p.link.Resume(side)
+	} else {
+		var ok bool
+		extra, ok = t.release(x, y, true)
+		if !ok {
+			return
+		}
+	}
+	if preset && deadline.After(issued) {
+		extra = deadline.Sub(issued)
+	}
+	r, ok := awaitCall(ch, extra+releaseBound)
+	if !ok {
+		t.failf("Write parked waiting for a write buffer (carrier stalled, %d buffers in flight, send window open) still blocked %v after release %q", buffers, extra+releaseBound, c.Release)
+		return
+	}
+	if r.n < 0 || r.n > block {
+		t.failf("Write returned count %d for %d bytes", r.n, block)
+		return
+	}
+	off += r.n
+	deadlineRelease := false
+	switch c.Release {
+	case "carrier-resumes":
+		if r.err != nil || r.n != block {
+			t.failf("Write released by the carrier resuming returned (%d, %v), want (%d, nil)", r.n, r.err, block)
+			return
+		}
+	case "deadline-preset", "deadline-future", "deadline-past", "deadline-both":
+		deadlineRelease = true
+		if !isErr(r.err, os.ErrDeadlineExceeded) {
+			t.failf("Write parked waiting for a write buffer and released by %q returned (%d, %v), want a deadline error", c.Release, r.n, r.err)
+			return
+		}
+	case "local-close-write":
+		if r.err != multiplexing.ErrWriteClosed {
+			t.failf("Write released by CloseWrite returned (%d, %v), want ErrWriteClosed", r.n, r.err)
+		}
+	case "local-close":
+		if r.err != multiplexing.ErrWriteClosed && !isErr(r.err, net.ErrClosed) {
+			t.failf("Write released by Close returned (%d, %v), want a closed error", r.n, r.err)
+		}
+	case "peer-close":
+		if !isErr(r.err, net.ErrClosed) {
+			t.failf("Write released by the peer's Close returned (%d, %v), want a closed error", r.n, r.err)
+		}
+	case "local-mux-close", "peer-mux-close", "carrier":
+		if r.err != multiplexing.ErrMultiplexerClosed {
+			t.failf("Write released by %q returned (%d, %v), want ErrMultiplexerClosed", c.Release, r.n, r.err)
+		}
+	}
+	if t.res.Fail != "" || (c.Release != "carrier-resumes" && !deadlineRelease) {
+		return
+	}
+	// The carrier resumes; the stream must still be usable and everything
+	// accepted so far must arrive, in order.
+	t.p.link.Resume(side)
+	if err := x.SetDeadline(time.Time{}); err != nil {
+		t.failf("clearing the deadline on an open stream returned %v", err)
+		return
+	}
+	r, ok = awaitCall(asyncCall(func() (int, error) { return x.Write(chunk(100)) }), releaseBound)
+	if !ok || r.err != nil || r.n != 100 {
+		t.failf("Write of 100 bytes after the carrier resumed and the deadline was cleared: returned=%v (%d, %v)", ok, r.n, r.err)
+		return
+	}
+	off += r.n
+	if err := x.CloseWrite(); err != nil {
+		t.failf("CloseWrite returned %v", err)
+		return
+	}
+	rr, ok := awaitCall(asyncCall(func() (int, error) {
+		buf := make([]byte, 4096)
+		got := 0
+		for {
+			n, err := y.Read(buf)
+			if i := mismatch(buf[:n], key, uint64(got)); i >= 0 {
+				return got, fmt.Errorf("byte %d differs from what was written", got+i)
+			}
+			got += n
+			if err == io.EOF {
+				return got, nil
+			}
+			if err != nil {
+				return got, err
+			}
+		}
+	}), releaseBound)
+	if !ok || rr.err != nil || rr.n != off {
+		t.failf("after the carrier resumed the peer read %d bytes (returned=%v, error %v), %d were accepted by Write", rr.n, ok, rr.err, off)
+	}
 }
